@@ -14,14 +14,14 @@
 using namespace hkn;
 
 namespace {
-// requests issued at or before `upto` (strictly before when strict) that are for a time later than `after`, or at/after it
-DateTime min_pending(DateTime now, bool at_entry, bool &any) {
+// earliest of the first nreq_before requests that is still pending at `now`
+DateTime min_pending(DateTime now, int nreq_before, bool at_entry, bool &any) {
     DateTime m = MAX_DT;
     any = false;
-    for (int i = 0; i < g_nreq; i++) {
-        // at user-code entry: requests made before now that have not fired before now (a request for now is still there);
-        // after a cycle: requests made up to now for a later time
-        bool live = at_entry ? ((g_req[i].issued < now) & (g_req[i].when >= now)) : ((g_req[i].issued <= now) & (g_req[i].when > now));
+    for (int i = 0; i < nreq_before; i++) {
+        // at user-code entry: requests made earlier that have not fired before now (a request for now is still there);
+        // after a cycle: requests made so far for a later time
+        bool live = at_entry ? (g_req[i].when >= now) : (g_req[i].when > now);
         any |= live;
         m = (live & (g_req[i].when < m)) ? g_req[i].when : m;
     }
@@ -57,7 +57,7 @@ extern "C" int harness_main() {
     bool ok_after = true, ok_not_past = true;
     for (int p = 0; p < g_nprobe; p++) {
         bool any;
-        DateTime m = min_pending(g_probe[p].now, false, any);
+        DateTime m = min_pending(g_probe[p].now, g_probe[p].nreq_before, false, any);
         ok_not_past &= !g_probe[p].is_sched | (g_probe[p].next > g_probe[p].now);
         ok_after &= (g_probe[p].is_sched == any) & (!any | (g_probe[p].next == m));
     }
@@ -67,7 +67,7 @@ extern "C" int harness_main() {
     bool ok_entry = true;
     for (int i = 0; i < g_nrun && i < MAXRUN; i++) {
         bool any;
-        DateTime m = min_pending(g_run[i].t, true, any);
+        DateTime m = min_pending(g_run[i].t, g_run[i].nreq_before, true, any);
         ok_entry &= (g_run[i].is_sched == any) & (!any | (g_run[i].next == m)) & (g_run[i].sched_now == (any & (m == g_run[i].t)));
     }
     verif_assert(ok_entry, "C18.native_queries_in_user_code");
